@@ -80,16 +80,16 @@ Print Assumptions C01_source_is_an_earlier_included_provider.
    that binds has well-formed slot tables, a clean base array, slots for everything an included
    provider reads, and compiled closures that are exactly the reference projection of its plan -
    provided no included per-invocation provider other than a plain injector was placed before the
-   invoke function (only Reorder can do that) and what an init function returns has slots. *)
+   invoke function (only Reorder can do that). *)
 Theorem C01_bound_chain_is_well_formed : forall c pl b,
-  bind_chain c = Ok (pl, b) -> runs_after_invoke pl = true -> init_covered pl = true ->
+  bind_chain c = Ok (pl, b) -> runs_after_invoke pl = true ->
   plan_wf (bc_te c) pl b = true.
 Proof. exact bind_plan_wf. Qed.
 Print Assumptions C01_bound_chain_is_well_formed.
 
-(* Hence, with nothing left to validate on the case: for every case without Reorder annotations
-   and without an init function, a chain that binds runs - for every provider behaviour, world and
-   session - exactly as the reference semantics of its plan. *)
+(* Hence, with nothing left to validate on the case: for every case without Reorder annotations,
+   with or without an init function, a chain that binds runs - for every provider behaviour, world
+   and session - exactly as the reference semantics of its plan. *)
 Theorem C01_every_plain_chain_refines_reference :
   forall (c : bcase) (pl : plan) (b : bound),
     plain_case c = true -> bind_chain c = Ok (pl, b) ->
@@ -103,10 +103,10 @@ Theorem C01_every_plain_chain_refines_reference :
 Proof. exact chain_refines_plain. Qed.
 Print Assumptions C01_every_plain_chain_refines_reference.
 
-(* ... and for every other chain that binds under the two positional conditions. *)
+(* ... and for every other chain that binds under the positional condition. *)
 Theorem C01_every_bound_chain_refines_reference :
   forall (c : bcase) (pl : plan) (b : bound),
-    bind_chain c = Ok (pl, b) -> runs_after_invoke pl = true -> init_covered pl = true ->
+    bind_chain c = Ok (pl, b) -> runs_after_invoke pl = true ->
     exists sp, splan_of (bc_te c) pl = Some sp /\
     forall (W : Type) (beh_fn : nat -> W -> list val -> W * list val)
            (beh_wrap : nat -> W -> list val -> wtree W) (steps : list step) (w0 : W),
@@ -126,8 +126,19 @@ Definition ex1_pd (pid : nat) (s : shape) : pdesc :=
 Definition ex1_case : bcase :=
   mkCase ex1_te [ex1_pd 1 (ShFn [] [10]); ex1_pd 2 (ShFn [10] [11]); ex1_pd 3 (ShFn [11] [12])]
          (ex1_pd 92 (ShFnPtr [] [12])) None [true].
+(* the same with an init function that returns the value of a Cacheable static injector *)
+Definition ex1_cacheable (pid : nat) (s : shape) : pdesc :=
+  mkPdesc pid 0 0 0 0 s false false true false false false false false false false false false 0 [] None None [] 0 [1] false.
+Definition ex2_case : bcase :=
+  mkCase ex1_te [ex1_cacheable 1 (ShFn [] [10]); ex1_pd 2 (ShFn [10] [11]); ex1_pd 3 (ShFn [11] [12])]
+         (ex1_pd 92 (ShFnPtr [] [12])) (Some (ex1_pd 91 (ShFnPtr [] [10]))) [false; true].
 Example C01_plain_nonvacuous :
   plain_case ex1_case = true /\
   exists pl b, bind_chain ex1_case = Ok (pl, b) /\ map p_pid (filter p_include (pl_funcs pl)) = [92; 1; 2; 3].
 Proof. split; [reflexivity|]. eexists. eexists. split; [vm_compute; reflexivity|reflexivity]. Qed.
+Example C01_plain_with_init_nonvacuous :
+  plain_case ex2_case = true /\
+  exists pl b, bind_chain ex2_case = Ok (pl, b) /\ map p_pid (filter p_include (pl_funcs pl)) = [91; 1; 92; 2; 3].
+Proof. split; [reflexivity|]. eexists. eexists. split; [vm_compute; reflexivity|reflexivity]. Qed.
+Print Assumptions C01_plain_with_init_nonvacuous.
 Print Assumptions C01_plain_nonvacuous.
